@@ -142,7 +142,11 @@ def stated_target(sim, op):
     # keep the per-process base cache small: this base is keyed by an arbitrary target
     W._BASE_CACHE.pop((h0, prev_t.to_bytes(32, 'big'), 1, 5_000_000_000), None)
     want = rules.retarget(prev_t, elapsed).to_bytes(32, 'big')
-    summ = consensus.construct_minable_summary(cs, [T.transactions[0]], ts, 0)
+    try:
+        summ = consensus.construct_minable_summary(cs, [T.transactions[0]], ts, 0)
+    except Exception as e:
+        sim.res.violate('C05', 'C05/assembly-raised', 'assembling a header at a retarget boundary raised %s: %s' % (type(e).__name__, e))
+        return
     sim.res.bump('stated_target_cases')
     sim.res.distinct.add('stated:%d:%d' % (prev_t.bit_length(), elapsed.bit_length()))
     sim.trace.add('stated', summ.target, want)
